@@ -1,5 +1,11 @@
 #!/bin/sh
-# regenerates _CoqProject (file list) and Makefile.coq
+# regenerates _CoqProject (file list) and Makefile.coq; files listed in EXCLUDE (work in progress) are left out
 cd "$(dirname "$0")"
-{ cat _CoqProject.base; find Model Proofs Properties Generated -name '*.v' | sort; } > _CoqProject
-coq_makefile -f _CoqProject -o Makefile.coq >/dev/null
+touch EXCLUDE
+{ cat _CoqProject.base; find Model Proofs Properties Generated -name '*.v' | grep -v '/_cases_' | sort | grep -v -x -F -f EXCLUDE; } > _CoqProject.new
+if ! cmp -s _CoqProject.new _CoqProject 2>/dev/null || [ ! -f Makefile.coq ]; then
+  mv _CoqProject.new _CoqProject
+  coq_makefile -f _CoqProject -o Makefile.coq >/dev/null
+else
+  rm -f _CoqProject.new
+fi
